@@ -18,6 +18,7 @@ package c10
 
 import (
 	"bytes"
+	"encoding/binary"
 	"encoding/hex"
 	"encoding/json"
 	"fmt"
@@ -36,10 +37,12 @@ import (
 	"github.com/cnotch/ipchub/av/codec"
 	"github.com/cnotch/ipchub/av/format/hls"
 	"github.com/cnotch/ipchub/av/format/mpegts"
+	"github.com/cnotch/ipchub/av/format/rtp"
 	"github.com/cnotch/ipchub/media"
 	svchls "github.com/cnotch/ipchub/service/hls"
 	"github.com/cnotch/xlog"
 	"verif/harness/lib/evid"
+	"verif/harness/lib/rtppack"
 	"verif/harness/lib/tsdemux"
 )
 
@@ -74,6 +77,7 @@ type op struct {
 	Token string `json:"token,omitempty"`
 	Back  int    `json:"back,omitempty"` // fetch: seq = last completed - back; sync: absolute seq expected to exist
 	Rd    int    `json:"rd,omitempty"`   // read: index into the kept readers (modulo)
+	PS    int    `json:"ps,omitempty"`   // v with hdr 0x67/0x68: in-band SPS/PPS, the 1-based pair of repoParamSets it is taken from
 	N     int    `json:"n,omitempty"`    // read: byte count, < 0 = to EOF
 }
 
@@ -81,6 +85,8 @@ type caseSpec struct {
 	Fragment int    `json:"fragment"`
 	Disk     bool   `json:"disk"`
 	Stream   bool   `json:"through_media_stream,omitempty"`
+	Rtp      bool   `json:"published_as_rtp,omitempty"`  // Stream only: every frame is an RTP packet through Stream.WriteRtpPacket (the real depacketizer keeps the metadata)
+	NoSprop  bool   `json:"sdp_without_sprop,omitempty"` // the SDP / the metadata the pipeline is built with carry no SPS/PPS: they arrive in band
 	Path     string `json:"path"`
 	SPS      string `json:"sps_hex"`
 	PPS      string `json:"pps_hex"`
@@ -353,9 +359,17 @@ type srcFrame struct {
 	pts     int64
 	dts     int64
 	arrival int
+	sps     []byte // the parameter sets in force when the frame was written: the
+	pps     []byte // last ones delivered in band, else the SDP's
+	nSPS    int    // how many of engine.seenSPS / seenPPS the stream had carried
+	nPPS    int    // when the frame was written
 }
 
 func (f *srcFrame) key() bool { return f.hdr&0x1f == 5 }
+
+// inband: SPS / PPS / AUD delivered as a frame of its own. The TS packetizer
+// may carry or omit it (C09); what counts here is what precedes the key pictures.
+func (f *srcFrame) inband() bool { t := f.hdr & 0x1f; return t >= 7 && t <= 9 }
 
 type opener struct {
 	audio   bool
@@ -391,6 +405,7 @@ type result struct {
 	playlists       int
 	classes         []string
 	knownSkips      int
+	stalePairs      int // segments whose key picture carries a pair the stream had carried earlier, not the last one (observed only)
 	infra           string
 }
 
@@ -408,7 +423,13 @@ type engine struct {
 	st  *media.Stream
 	dir string
 
-	sps, pps []byte
+	sps, pps []byte           // the SDP's parameter sets (nil when it has none)
+	seenSPS  [][]byte         // every SPS / PPS the stream has carried so far: the SDP's
+	seenPPS  [][]byte         // sprop sets and each one published in band, in order
+	curSPS   []byte           // in force now
+	curPPS   []byte           //
+	vm       *codec.VideoMeta // direct mode: the metadata the packetizer was built on
+	rtpSeq   [2]uint16
 
 	srcV, srcA []srcFrame
 	arrivals   int
@@ -441,6 +462,9 @@ func readAllClose(r io.Reader) ([]byte, error) {
 func run(c *caseSpec, work string) (res *result, f *failure) {
 	e := &engine{c: c, res: &result{}, segs: map[int][]byte{}, openedBy: map[int]opener{}, sps: mustHex(c.SPS), pps: mustHex(c.PPS), properV: -1}
 	res = e.res
+	if c.NoSprop {
+		e.sps, e.pps = nil, nil
+	}
 	if c.Disk {
 		d, err := os.MkdirTemp(work, "c10-")
 		if err != nil {
@@ -463,6 +487,7 @@ func run(c *caseSpec, work string) (res *result, f *failure) {
 		}
 		e.sg, e.pl = sg, e.hpl
 		vm := &codec.VideoMeta{Codec: "H264", Sps: e.sps, Pps: e.pps}
+		e.vm = vm
 		am := &codec.AudioMeta{Codec: "AAC", Sps: mustHex(c.ASC), SampleRate: c.Rate}
 		e.vp = mpegts.NewH264Packetizer(vm, sg)
 		e.ap = mpegts.NewAacPacketizer(am, sg)
@@ -538,8 +563,36 @@ func (e *engine) write(i int, o *op) *failure {
 	}
 	audio := o.K == "a"
 	fr := srcFrame{hdr: o.Hdr, payload: payload(i, audio, o.Hdr, o.Size), pts: o.PTS, dts: o.DTS, arrival: e.arrivals}
-	e.cur = opener{audio: audio, pts: o.PTS, arrival: e.arrivals}
-	e.allPTS = append(e.allPTS, o.PTS)
+	if e.curSPS == nil && e.curPPS == nil {
+		e.curSPS, e.curPPS = e.sps, e.pps
+		if len(e.sps) > 0 {
+			e.seenSPS = append(e.seenSPS, e.sps)
+		}
+		if len(e.pps) > 0 {
+			e.seenPPS = append(e.seenPPS, e.pps)
+		}
+	}
+	if !audio && o.PS > 0 {
+		ps := repoParamSets[(o.PS-1)%len(repoParamSets)]
+		if o.Hdr&0x1f == 7 {
+			fr.payload = mustHex(b64hex(ps[0]))
+			e.curSPS = fr.payload
+			e.seenSPS = append(e.seenSPS, fr.payload)
+		} else {
+			fr.payload = mustHex(b64hex(ps[1]))
+			e.curPPS = fr.payload
+			e.seenPPS = append(e.seenPPS, fr.payload)
+		}
+	}
+	fr.sps, fr.pps = e.curSPS, e.curPPS
+	fr.nSPS, fr.nPPS = len(e.seenSPS), len(e.seenPPS)
+	if e.c.Rtp {
+		// rtp.ptsDelay: the depacketizers stamp every frame 0.5 s later
+		fr.pts += 45000
+		fr.dts += 45000
+	}
+	e.cur = opener{audio: audio, pts: fr.pts, arrival: e.arrivals}
+	e.allPTS = append(e.allPTS, fr.pts)
 	e.arrivals++
 	cf := &codec.Frame{MediaType: codec.MediaTypeVideo, Payload: fr.payload, Pts: ns(o.PTS), Dts: ns(o.DTS)}
 	if audio {
@@ -549,11 +602,24 @@ func (e *engine) write(i int, o *op) *failure {
 	} else {
 		e.srcV = append(e.srcV, fr)
 	}
+	if e.st != nil && e.c.Rtp {
+		return e.writeRTP(o, &fr, audio)
+	}
 	if e.st != nil {
 		if err := e.st.WriteFrame(cf); err != nil {
 			return fail("write-error", "Stream.WriteFrame: %v", err)
 		}
 		return nil // the muxer goroutine works on it; "sync" ops collect the result
+	}
+	if !audio && o.PS > 0 && e.vm != nil {
+		// direct mode has no depacketizer: the harness keeps the metadata the way
+		// one that follows the publisher does - an in-band set replaces the stored
+		// one before the frame is handed on
+		if o.Hdr&0x1f == 7 {
+			e.vm.Sps = fr.payload
+		} else {
+			e.vm.Pps = fr.payload
+		}
 	}
 	var err error
 	if audio {
@@ -565,6 +631,34 @@ func (e *engine) write(i int, o *op) *failure {
 		return fail("write-error", "writing frame returned %v", err)
 	}
 	return e.afterWrite()
+}
+
+// writeRTP publishes the frame as one RTP packet (RFC 6184 single NAL unit
+// packet; RFC 3640 AAC-hbr with one AU) through Stream.WriteRtpPacket.
+func (e *engine) writeRTP(o *op, fr *srcFrame, audio bool) *failure {
+	ch, pt, ts := byte(rtp.ChannelVideo), byte(96), uint32(o.PTS)
+	body := fr.payload
+	if audio {
+		ch, pt = rtp.ChannelAudio, 97
+		ts = uint32((o.PTS*int64(e.c.Rate) + 45000) / 90000)
+		n := len(fr.payload)
+		body = append([]byte{0, 16, byte(n >> 5), byte(n << 3)}, fr.payload...) // AU-headers-length 16 bits; AU-size(13) AU-Index(3)
+	}
+	k := 0
+	if audio {
+		k = 1
+	}
+	e.rtpSeq[k]++
+	raw := make([]byte, 12, 12+len(body))
+	raw[0], raw[1] = 0x80, pt|0x80
+	binary.BigEndian.PutUint16(raw[2:], e.rtpSeq[k])
+	binary.BigEndian.PutUint32(raw[4:], ts)
+	binary.BigEndian.PutUint32(raw[8:], 0x10101010+uint32(k))
+	raw = append(raw, body...)
+	if err := e.st.WriteRtpPacket(rtppack.ToIpchub(ch, raw)); err != nil {
+		return fail("write-error", "Stream.WriteRtpPacket: %v", err)
+	}
+	return nil
 }
 
 // afterWrite records a segment the last write completed, and the storage bound.
@@ -691,6 +785,14 @@ func (e *engine) judgeSegment(seq int, ts []byte) *failure {
 					return fail("frame-invented", "segment %d: video PES in packet %d carries NAL types %v: only AUD/SPS/PPS may accompany the source frame", seq, p.FirstPacket, nalTypes(nals))
 				}
 			}
+			// in-band SPS/PPS frames may be omitted from the elementary stream
+			skipInband := func() {
+				for e.curV < len(e.srcV) && e.srcV[e.curV].inband() && !bytes.Equal(e.srcV[e.curV].payload, got) {
+					e.curV++
+					e.res.class("frame:in-band-set-omitted")
+				}
+			}
+			skipInband()
 			if firstVideo {
 				// frames that fell into a discarded < 100 ms segment are exempt: a run
 				// that starts where a segment can start (a key frame, or the very first
@@ -711,6 +813,7 @@ func (e *engine) judgeSegment(seq int, ts []byte) *failure {
 					e.res.class("exempt:discarded-short-segment")
 				}
 			}
+			skipInband()
 			if e.curV >= len(e.srcV) {
 				return fail("frame-invented", "segment %d: a video frame beyond the %d written (%s)", seq, len(e.srcV), locate(e.srcV, e.curV, got))
 			}
@@ -719,28 +822,61 @@ func (e *engine) judgeSegment(seq int, ts []byte) *failure {
 				return fail("frame-accounting", "segment %d: video PES in packet %d should carry source video frame %d (NAL type %d, pts %d) but %s; got %s", seq, p.FirstPacket, e.curV, src.hdr&0x1f, src.pts, locate(e.srcV, e.curV, got), evid.Hex(got))
 			}
 			e.curV++
-			if p.PTS == nil || *p.PTS != uint64(src.pts)&tsMask {
-				return fail("frame-pts", "segment %d: video frame %d has PTS %v, source %d", seq, e.curV-1, deref(p.PTS), src.pts)
-			}
-			if (p.DTS != nil && *p.DTS != uint64(src.dts)&tsMask) || (p.DTS == nil && src.dts != src.pts) {
-				return fail("frame-dts", "segment %d: video frame %d has DTS %v, source %d (pts %d)", seq, e.curV-1, deref(p.DTS), src.dts, src.pts)
+			if e.c.Rtp {
+				// the depacketizer converts RTP ticks to ns and the packetizer back, each
+				// rounding down; its decode stamps are its own (frame counter or wall clock)
+				if p.PTS == nil || (*p.PTS != uint64(src.pts)&tsMask && *p.PTS != uint64(src.pts-1)&tsMask) {
+					return fail("frame-pts", "segment %d: video frame %d has PTS %v, RTP timestamp + 0.5 s is %d", seq, e.curV-1, deref(p.PTS), src.pts)
+				}
+			} else {
+				if p.PTS == nil || *p.PTS != uint64(src.pts)&tsMask {
+					return fail("frame-pts", "segment %d: video frame %d has PTS %v, source %d", seq, e.curV-1, deref(p.PTS), src.pts)
+				}
+				if (p.DTS != nil && *p.DTS != uint64(src.dts)&tsMask) || (p.DTS == nil && src.dts != src.pts) {
+					return fail("frame-dts", "segment %d: video frame %d has DTS %v, source %d (pts %d)", seq, e.curV-1, deref(p.DTS), src.dts, src.pts)
+				}
 			}
 			if firstVideo {
 				firstVideo, sawVideo, firstVideoSrc, firstVideoIdx = false, true, src, e.curV-1
 				// "begins its video with a key frame preceded by SPS/PPS"
 				if got[0]&0x1f == 5 {
-					si, pi := -1, -1
-					for k, u := range nals[:len(nals)-1] {
-						if bytes.Equal(u, e.sps) && si < 0 {
-							si = k
-						}
-						if bytes.Equal(u, e.pps) && pi < 0 {
-							pi = k
+					// preceded by an SPS and a PPS, each byte-equal to one the stream has
+					// carried up to this picture (the SDP's sprop sets or any set published
+					// in band before it). Which of them is not fixed by the statement:
+					// ipchub's "the stream's sets" is the pair its metadata holds.
+					var gotSPS, gotPPS []byte
+					for _, u := range nals[:len(nals)-1] {
+						switch u[0] & 0x1f {
+						case 7:
+							for _, k := range e.seenSPS[:src.nSPS] {
+								if gotSPS == nil && len(u) > 0 && bytes.Equal(u, k) {
+									gotSPS = u
+								}
+							}
+						case 8:
+							for _, k := range e.seenPPS[:src.nPPS] {
+								if gotPPS == nil && len(u) > 0 && bytes.Equal(u, k) {
+									gotPPS = u
+								}
+							}
 						}
 					}
-					keyStart = si >= 0 && pi >= 0
+					keyStart = gotSPS != nil && gotPPS != nil
 					if !keyStart && seq > 1 {
-						return fail("segment-start", "segment %d begins its video with an IDR that is not preceded by the stream's SPS and PPS (NAL types %v)", seq, nalTypes(nals))
+						var found []string
+						for _, u := range nals[:len(nals)-1] {
+							found = append(found, evid.Hex(u))
+						}
+						return fail("segment-start", "segment %d begins its video with an IDR (source frame %d) that is not preceded by an SPS and a PPS the stream has carried (%d SPS and %d PPS were announced or published before it; the publisher's last were SPS %s PPS %s): the access unit carries NAL types %v = %v", seq, e.curV-1, src.nSPS, src.nPPS, evid.Hex(src.sps), evid.Hex(src.pps), nalTypes(nals), found)
+					}
+					if keyStart && seq > 1 {
+						// observed, not judged
+						if bytes.Equal(gotSPS, src.sps) && bytes.Equal(gotPPS, src.pps) {
+							e.res.class("observed:segment-starts-with-the-pair-in-force")
+						} else {
+							e.res.class("observed:segment-starts-with-an-earlier-pair(metadata pair kept after an in-band change)")
+							e.res.stalePairs++
+						}
 					}
 				}
 			}
@@ -764,7 +900,11 @@ func (e *engine) judgeSegment(seq int, ts []byte) *failure {
 						return fail("frame-pts", "segment %d: audio PES without PTS", seq)
 					}
 					d := int64(*p.PTS) - int64(uint64(src.pts)&tsMask)
-					if d < -9000 || d > 9000 {
+					tol := int64(9000)
+					if e.c.Rtp {
+						tol += 16 // RTP audio ticks are 1/rate s: the stamp is rounded to them and back
+					}
+					if d < -tol || d > tol {
 						return fail("frame-pts", "segment %d: audio PES starting with source frame %d has PTS %d, source %d: off by more than the 100 ms jitter correction", seq, e.curA-1, *p.PTS, src.pts)
 					}
 				}
@@ -1171,6 +1311,9 @@ func check(t TB, c *caseSpec, work, test string) *result {
 	}
 	if c.Stream {
 		mode += "+media.Stream"
+		if c.Rtp {
+			mode += "(RTP)"
+		}
 	}
 	evid.Class("mode:" + mode)
 	evid.Class(fmt.Sprintf("fragment:%d", c.Fragment))
